@@ -48,6 +48,13 @@ class Cfg:
     and_forms: Tuple[str, ...] = ("nary", "binl", "binr")
     force_relate: bool = False              # make the condition relate >= 2 variables when possible
     avoid: frozenset = frozenset()          # features excluded by construction (open known findings)
+    exclude_leaves: frozenset = frozenset()  # leaf kinds not to generate (e.g. C19's twin cannot preserve substring tests)
+    use_k: bool = True                       # whether the unique key k may be used as an int term
+
+
+def chance(draw, num: int, den: int) -> bool:
+    """True with probability num/den; shrinks towards False."""
+    return draw(st.sampled_from([False] * (den - num) + [True] * num))
 
 
 # ----------------------------------------------------------------------------- dataset
@@ -93,7 +100,7 @@ class Ctx:
 def ent_term(draw, ctx: Ctx, var: int, depth: int = 2):
     t = ["var", var]
     for _ in range(draw(st.sampled_from([0, 0, 0, 1, 1, 2])) if depth else 0):
-        if ctx.min_kids > 0 and draw(st.integers(0, 3)) == 0:
+        if ctx.min_kids > 0 and chance(draw, 1, 4):
             t = ["idx", ["attr", t, "kids"], draw(st.integers(0, ctx.min_kids - 1))]
         else:
             t = ["attr", t, "ref"]
@@ -102,7 +109,7 @@ def ent_term(draw, ctx: Ctx, var: int, depth: int = 2):
 
 def int_term(draw, ctx: Ctx, var: int):
     e = ent_term(draw, ctx, var)
-    choices = ["a", "a", "b", "b", "k", "val", "d"]
+    choices = ["a", "a", "b", "b", "val", "d"] + (["k"] if ctx.cfg.use_k else [])
     if ctx.min_tags > 0:
         choices += ["tag", "pick"]
     c = draw(st.sampled_from(choices))
@@ -135,6 +142,7 @@ def leaf(draw, ctx: Ctx, vars_: List[int]):
         kinds = ["int2", "int2", "int2", "ent2", "ent2", "str2", "inkids", "intag2"]
         if cfg.allow_preds:
             kinds += ["fpred2", "cpred2"]
+        kinds = [x for x in kinds if x not in cfg.exclude_leaves]
         k = draw(st.sampled_from(kinds))
         if k == "int2":
             return ["cmp", draw(st.sampled_from(CMP_OPS)), int_term(draw, ctx, x), int_term(draw, ctx, y)]
@@ -160,6 +168,7 @@ def leaf(draw, ctx: Ctx, vars_: List[int]):
         kinds += ["big", "atleast", "starts"]
     if cfg.allow_preds:
         kinds += ["fpred1", "cpred1", "hastype"]
+    kinds = [x for x in kinds if x not in cfg.exclude_leaves]
     k = draw(st.sampled_from(kinds))
     P = ctx.P
     if k == "intc":
@@ -213,7 +222,7 @@ def pick_vars(draw, ctx: Ctx, prefer_two: bool):
     n = ctx.nvars
     if n == 1:
         return [0]
-    two = draw(st.integers(0, 9)) < (7 if prefer_two else 4)
+    two = chance(draw, 7 if prefer_two else 4, 10)
     if two:
         x = draw(st.integers(0, n - 1))
         y = draw(st.integers(0, n - 2))
@@ -225,7 +234,7 @@ def pick_vars(draw, ctx: Ctx, prefer_two: bool):
 
 def cond_tree(draw, ctx: Ctx, depth: int, under_not: bool = False):
     cfg = ctx.cfg
-    if depth <= 0 or draw(st.integers(0, 9)) < 3:
+    if depth <= 0 or chance(draw, 3, 10):
         return leaf(draw, ctx, pick_vars(draw, ctx, cfg.force_relate))
     kinds = ["and", "and", "or", "or"]
     if cfg.allow_not and (cfg.allow_nested_not or not under_not):
@@ -288,14 +297,17 @@ def draw_domains(draw, cfg: Cfg, recs: List[dict], nvars: int):
     var_dom = []
     budget = cfg.max_product
     for v in range(nvars):
-        if v > 0 and draw(st.integers(0, 4)) == 0:
+        if v > 0 and chance(draw, 1, 5):
             j = draw(st.integers(0, len(doms) - 1))      # share an earlier container: self-join on one list
             if max(1, len(doms[j])) <= budget:
                 var_dom.append(j)
                 budget //= max(1, len(doms[j]))
                 continue
         hi = max(cfg.dom[0], min(cfg.dom[1], n, budget))
-        size = draw(st.integers(min(cfg.dom[0], hi), hi))
+        lo = min(cfg.dom[0], hi)
+        if lo == 0 and hi >= 1 and not chance(draw, 1, 12):
+            lo = 1
+        size = draw(st.sampled_from(list(range(lo, hi + 1)) + [hi, hi, max(lo, hi - 1)]))
         idxs = draw(st.permutations(list(range(n))))[:size]
         doms.append(list(idxs))
         var_dom.append(len(doms) - 1)
@@ -311,14 +323,14 @@ def query_case(draw, cfg: Cfg):
     ctx = Ctx(cfg, recs, nvars)
     doms, var_dom = draw_domains(draw, cfg, recs, nvars)
     # noise: objects of unrelated types inside the domain containers (the variable's type filters them out)
-    if cfg.noise and draw(st.integers(0, 3)) == 0:
+    if cfg.noise and chance(draw, 1, 5):
         base = len(recs)
         recs = recs + [{"cls": "Other", "k": 90, "a": 1}, {"cls": "Foreign", "k": 91}]
         for d in doms:
             if draw(st.booleans()):
                 d.insert(draw(st.integers(0, len(d))), base + draw(st.integers(0, 1)))
     vars_ = [{"dom": var_dom[v], "decl": draw(st.sampled_from(cfg.decls)), "type": "Ent"} for v in range(nvars)]
-    if cfg.allow_empty_cond and draw(st.integers(0, 9)) == 0:
+    if cfg.allow_empty_cond and chance(draw, 1, 15):
         cond = None
     else:
         cond = template_cond(draw, ctx)
